@@ -246,12 +246,16 @@ FILE_TEXTS = [
     ".include_ips 'nofile_c15.ips', 0\n", ".include 'exists_c15.s'\n", ".include '../nofile_c15.s'\n", ".include '/nofile_c15.s'\n", ".include ''\n", ".include '.'\n",
     ".include 'exists_c15.s'\n.include 'exists_c15.s'\n", ".include 'self_c15.s'\n", "{\n.include 'nofile_c15.s'\n}\n", ".include 'main_c15.s'\n",
     ".include 'cyc_a_c15.s'\n", ".db 1\n.include 'cyc3_a_c15.s'\n.db 2\n", ".include 'cyc_b_c15.s'\n.include 'cyc_a_c15.s'\n",
+    ".include_ips 'cut1_c15.ips', 0\n", ".include_ips 'cut2_c15.ips', 0\n", ".include_ips 'cut3_c15.ips', 0x200\n", ".include_ips 'cut4_c15.ips', 0\n",
+    ".include_ips 'cut5_c15.ips', 0\n", ".db 1\n.include_ips 'whole_c15.ips', 0\n.include_ips 'cut1_c15.ips', 0\n",
     # table-encoded text: strings that half-match longer entries, text several scopes below (or without) a table
     ".table 'tbl_c15.tbl'\n.text 'AB[emd] At [ x t'\n", ".table 'tbl_c15.tbl'\n.text '[nam[end]t[0x'\n", "{\n{\n.text 'x'\n}\n}\n",
     ".table 'tbl_c15.tbl'\n.scope s1 {\n.macro tm() {\n.text 'AB'\n}\ntm()\n.for k := 0, 2 {\n.text 'BA'\n}\n{\n{\n{\n.text 'A'\n}\n}\n}\n}\n",
     ".macro tq() {\n{\n.text 'AB'\n}\n}\n{\n.table 'tbl_c15.tbl'\ntq()\n}\ntq()\n",
 ]
-SIDE_FILES = {"tbl_c15.tbl": "41=A\n42=B\n80=th\nF0=[end]\nF1=[name]\n", "exists_c15.s": ".db 7\n", "self_c15.s": ".db 8\n.include 'self_c15.s'\n",
+SIDE_FILES = {"cut1_c15.ips": b"PATCH\x00\x10\x00\x00\x03abc", "cut2_c15.ips": b"PATCH", "cut3_c15.ips": b"PATCH\x00\x10\x00\x00\x03abcEO",
+              "cut4_c15.ips": b"PATCH\x00\x10\x00\x00\x00\x00\x05", "cut5_c15.ips": b"PATCH\x00\x10", "whole_c15.ips": b"PATCH\x00\x10\x00\x00\x03abcEOF",
+              "tbl_c15.tbl": "41=A\n42=B\n80=th\nF0=[end]\nF1=[name]\n", "exists_c15.s": ".db 7\n", "self_c15.s": ".db 8\n.include 'self_c15.s'\n",
               "cyc_a_c15.s": ".db 1\n.include 'cyc_b_c15.s'\n", "cyc_b_c15.s": ".db 2\n.include 'cyc_a_c15.s'\n",
               "cyc3_a_c15.s": ".include 'cyc3_b_c15.s'\n", "cyc3_b_c15.s": "nop\n.include 'cyc3_c_c15.s'\n", "cyc3_c_c15.s": ".include 'cyc3_a_c15.s'\nnop\n"}
 
@@ -324,7 +328,7 @@ def run_shard(shard: dict) -> Res:
         elif shard["kind"] == "files":
             # the same inputs through the file front end, the source named by an absolute and by a relative path
             for name, content in SIDE_FILES.items():
-                with open(name, "w") as f:
+                with open(name, "wb" if isinstance(content, bytes) else "w") as f:
                     f.write(content)
             rng = random.Random(shard["seed"] ^ 0xF11E)
             texts = list(FILE_TEXTS)
